@@ -221,7 +221,16 @@ theorem typed_cexpr {env : Env} {file : AFile} {G : List String} {c : TCtx} {D :
             hts, callOfT, hgf, normT_func, argsAssignable_std c hpstd, if_true, (goTy_std htyS).1]
           simp
       have hcall : callOK env file G Γ (.var name fty) args ty = true := by
-        rcases hfrag with ((h | h) | h) | h
+        rcases hfrag with (((h | h) | h) | h) | h
+        rotate_left 4
+        · exfalso
+          simp only [vecCallOK, Bool.and_eq_true] at h
+          obtain ⟨_, hcase⟩ := h
+          have hnv : ¬ name = "vec_new" ∧ ¬ name = "vec_push" ∧ ¬ name = "vec_get" ∧ ¬ name = "vec_len" := by
+            have := hf.2; simp [vecNames] at this; exact this
+          rw [if_neg (by simpa using hnv.1), if_neg (by simpa using hnv.2.1), if_neg (by simpa using hnv.2.2.1),
+            if_neg (by simpa using hnv.2.2.2)] at hcase
+          cases hcase
         rotate_left 3
         · exact absurd h hlc
         · exact h
@@ -229,12 +238,12 @@ theorem typed_cexpr {env : Env} {file : AFile} {G : List String} {c : TCtx} {D :
           simp only [refCallOK, Bool.and_eq_true] at h
           obtain ⟨_, hcase⟩ := h
           have hnr : ¬ name = "ref" ∧ ¬ name = "ref_get" ∧ ¬ name = "ref_set" := by
-            have := hf.1; simp [refNames] at this; exact this
+            have := hf.1.1; simp [refNames] at this; exact this
           rw [if_neg (by simpa using hnr.1), if_neg (by simpa using hnr.2.1), if_neg (by simpa using hnr.2.2)] at hcase
           cases hcase
         · exfalso
           obtain ⟨_, hn⟩ := arrcall_name h
-          have := hf.2; simp [arrNames] at this
+          have := hf.1.2; simp [arrNames] at this
           rcases hn with hn | hn
           · exact this.1 hn
           · exact this.2 hn
@@ -351,7 +360,16 @@ theorem isNilLit_simple {env : Env} {e : CExpr} (hstd : stdC e = true) (hctl : i
             | some p => rw [hx] at hext; simp at hext
           simp [compileCExpr, compileCall_local hsp hext', isNilLit, isCallE]
       have hcall : callOK env file G Γ (.var name fty) args ty = true := by
-        rcases hfrag with ((h | h) | h) | h
+        rcases hfrag with (((h | h) | h) | h) | h
+        rotate_left 4
+        · exfalso
+          simp only [vecCallOK, Bool.and_eq_true] at h
+          obtain ⟨_, hcase⟩ := h
+          have hnv : ¬ name = "vec_new" ∧ ¬ name = "vec_push" ∧ ¬ name = "vec_get" ∧ ¬ name = "vec_len" := by
+            have := hstd.2.2; simp [vecNames] at this; exact this
+          rw [if_neg (by simpa using hnv.1), if_neg (by simpa using hnv.2.1), if_neg (by simpa using hnv.2.2.1),
+            if_neg (by simpa using hnv.2.2.2)] at hcase
+          cases hcase
         rotate_left 3
         · exact absurd h hlc
         · exact h
@@ -359,12 +377,12 @@ theorem isNilLit_simple {env : Env} {e : CExpr} (hstd : stdC e = true) (hctl : i
           simp only [refCallOK, Bool.and_eq_true] at h
           obtain ⟨_, hcase⟩ := h
           have hnr : ¬ name = "ref" ∧ ¬ name = "ref_get" ∧ ¬ name = "ref_set" := by
-            have := hstd.2.1; simp [refNames] at this; exact this
+            have := hstd.2.1.1; simp [refNames] at this; exact this
           rw [if_neg (by simpa using hnr.1), if_neg (by simpa using hnr.2.1), if_neg (by simpa using hnr.2.2)] at hcase
           cases hcase
         · exfalso
           obtain ⟨_, hn⟩ := arrcall_name h
-          have := hstd.2.2; simp [arrNames] at this
+          have := hstd.2.1.2; simp [arrNames] at this
           rcases hn with hn | hn
           · exact this.1 hn
           · exact this.2 hn
